@@ -19,6 +19,9 @@ META = {
             'views are compared in the kernel); the Go harness and line protocol. Registry values are those of the linux build of the plugins.',
 }
 NS = 'Scalibr.Registry.'
+KF_ALIAS = 'C19/enable-required-appends-into-shared-slice'
+KF_NILCAPS = 'C19/nil-capabilities-panic'
+KF_CLIDUP = 'C19/cli-extractor-named-twice-enabled-twice'
 # set-union clauses: resolving a list of names; auto-enabling required extractors (borrowed by C01 at Scan level)
 ENABLE_MODULE = 'Scalibr.Properties.C19Enable'
 ENABLE_THEOREMS = ['Scalibr.Registry.' + t for t in ['C19_resolves_list_partial', 'C19_resolves_list_error', 'C19_registry_names_determine', 'C19_resolves_list',
@@ -141,6 +144,27 @@ def run(ctx):
         op = t[0]
         if fi.get('_') == 'panic':
             return 'the implementation panicked on ' + case
+        if op == 'share' and 'sena2' in fm:
+            # SPEC: a configuration is not changed by what ANOTHER configuration enables, even when both were built from one filtered list
+            if fi.get('ena2') != fm['sena2']:
+                def ns(x):
+                    return [[unhex(n) for n in part.split(',') if n != '-'] for part in x.split('|')] if '|' in x else x
+                a, b = ns(fm['sena2']), ns(fi.get('ena2', ''))
+                lost = sorted(set(sum(a, [])) - set(sum(b, []))) if isinstance(a, list) and isinstance(b, list) else '?'
+                got = sorted(set(sum(b, [])) - set(sum(a, []))) if isinstance(a, list) and isinstance(b, list) else '?'
+                return ('two scan configurations built from ONE capability-filtered list (selection %s under %s; detectors A=%s, B=%s): after B.EnableRequiredExtractors() '
+                        'configuration A no longer holds %s (it holds %s instead): the extractor A\'s detector requires was overwritten through the shared backing array') % (
+                    unhexl(t[2]), caps_str(t[1]), unhexl(t[3]), unhexl(t[4]), lost, got)
+        if op == 'nilcaps' and 'snres' in fm and fi.get('nres') != fm['snres']:
+            return '%s with the capabilities left nil and plugin requirements %s: %s; with nothing known about the environment exactly the plugins without requirements pass (expected: %s)' % (
+                {'val': 'ScanConfig.ValidatePluginRequirements', 'flt': 'list.FilterByCapabilities', 'one': 'plugin.ValidateRequirements'}[t[1]], caps_str(t[2]),
+                {'panic': 'PANICS (nil pointer dereference)', 'ok': 'passes', 'err': 'is refused'}.get(fi.get('nres'), fi.get('nres')), {'ok': 'passes', 'err': 'refused with an error'}[fm['snres']])
+        if op == 'cli' and fi.get('cres') != 'flagerr':
+            sel = 'offline=%s govulncheck-db=%r extractors=%r detectors=%r' % (t[1], unhex(t[2]), unhex(t[3]), unhex(t[4]))
+            if fi.get('cdup', '-') != '-':
+                return 'the configuration binary/cli builds for %s enables a plugin TWICE: %s (it then runs twice and every package of it is reported twice)' % (sel, unhexl(fi['cdup']))
+            if fi.get('cres') != 'ok':
+                return 'the configuration binary/cli builds with --filter-by-capabilities for %s fails the pre-scan check: %s' % (sel, fi.get('cres'))
         if op == 'val' and 'spec' in fm and fi.get('ok') != fm['spec']:
             return 'ValidateRequirements(requirements=%s, capabilities=%s) returned %s but the requirements are %ssatisfied' % (
                 caps_str(t[1]), caps_str(t[2]), 'nil' if fi.get('ok') == '1' else 'an error', '' if fm['spec'] == '1' else 'NOT ')
@@ -207,12 +231,34 @@ def run(ctx):
             return 'plugin names are not unique across the registry: %s' % unhexl(fi['dup'])
         return None
 
+    def finding_class(case, fi, fm):
+        t = case.split(' ')
+        # class predicate: the shared list has spare capacity, A's own result is the model's, and A differs afterwards
+        if t[0] == 'share' and fi.get('spare') == '1' and fi.get('ena') == fm.get('ena') and fi.get('enb') == fm.get('enb') and fi.get('ena2') != fm.get('sena2'):
+            return KF_ALIAS
+        # class predicate: nil capabilities, a requirement is stated (so the specification says "refused"), and the call panics
+        if t[0] == 'nilcaps' and fi.get('nres') == 'panic' and fm.get('snres') == 'err' and t[2] != '0000':
+            return KF_NILCAPS
+        # class predicate: the command line's extractor list names an extractor twice (directly and through a group / two groups) and the
+        # ONLY complaint is that plugin's double entry among the filesystem / standalone extractors
+        if t[0] == 'cli' and fi.get('cres') == 'ok' and fi.get('cdup', '-') != '-' and all(unhex(d).startswith(('fs ', 'st ')) for d in fi['cdup'].split(',')):
+            names = [n.strip() for n in unhex(t[3]).split(',')]
+            if len(names) > 1:
+                return KF_CLIDUP
+        return None
+
     def classify(case, fi, fm):
+        if case.startswith(('share ', 'nilcaps ', 'cli ')):
+            return case.split(' ')[0] + ':' + (fi.get('nres') or fi.get('cres') or ('changed' if fi.get('ena2') != fi.get('ena') else 'kept'))
         return case.split(' ')[0] + ':' + (fi.get('res', fi.get('ok', fi.get('_', ''))).split(':')[0] or '-')[:10]
 
     lib.standard_stream(ctx, gen='c19gen', driver='drv_c19', gen_args=['-seed', str(ctx.seed), '-n', str(n), '-tier', ctx.tier],
-                        compare_keys=['errs', 'ok', 'names', 'kept', 'res', 'fs', 'st', 'n', 'dup', 'r', 'after', 'input', 'scan', 'en', 'calls', 'dup', 'stat'], nontrivial=nontrivial, oracle=oracle, classify=classify,
-                        sample_every=997)
+                        compare_keys=['errs', 'ok', 'names', 'kept', 'res', 'fs', 'st', 'n', 'dup', 'r', 'after', 'input', 'scan', 'en', 'calls', 'dup', 'stat', 'ena', 'enb'], nontrivial=nontrivial, oracle=oracle, classify=classify,
+                        finding_class=finding_class, sample_every=997)
+    if not ctx.replay:
+        for kf in (KF_ALIAS, KF_NILCAPS, KF_CLIDUP):
+            if kf in ctx.known and kf not in ctx.known_hits:
+                ctx.violation('known finding %s no longer reproduces: update known_findings.txt' % kf, ['# ' + kf], found_input=False, name='stale-' + kf.replace('/', '-'))
     if not proofs_ok:
         lib.proof_failed(ctx, 'Scalibr.Properties.C19' + (': ' + ', '.join(failed) if failed else ''))
 
